@@ -185,6 +185,75 @@ def build_scen(config="asan"):
                         extra_cflags=["-DVCHILD_EMBEDDED"])
 
 
+def build_win(config="asan"):
+    """C18: the Windows sources compiled on Linux against stubs/windows.h, allocation calls wrapped."""
+    cfg = CONFIGS[config]
+    bdir = os.path.join(BUILD, config + "-win")
+    os.makedirs(bdir, exist_ok=True)
+    srcs = [os.path.join(REPO, "reproc/src", f) for f in ("process.windows.c", "utf.windows.c", "handle.windows.c")]
+    harness = [os.path.join(SRC, "win.c"), os.path.join(SRC, "wrap.c"), os.path.join(SRC, "wrap.h"),
+               os.path.join(VERIF, "stubs", "windows.h")]
+    flags = cfg["cflags"]
+    out = os.path.join(bdir, "win")
+    digest = _hash(srcs + lib_headers() + harness, " ".join(flags))
+    stamp = out + ".stamp"
+    if os.path.exists(out) and _stamp_ok(stamp, digest):
+        return out
+    inc = ["-I" + os.path.join(VERIF, "stubs")] + LIB_INC
+    objs = []
+    for s in srcs:
+        o = os.path.join(bdir, os.path.basename(s)[:-2] + ".o")
+        run([cfg["cc"]] + flags + ["-std=c99", "-D_WIN32", "-w"] + inc + ["-c", s, "-o", o])
+        objs.append(o)
+    lib = os.path.join(bdir, "win_w.o")
+    run(["ld", "-r", "--wrap=malloc", "--wrap=calloc", "--wrap=realloc", "--wrap=free"] + objs + ["-o", lib])
+    wrap_o = os.path.join(bdir, "wrap.o")
+    run([cfg["cc"]] + flags + ["-I" + SRC, "-c", os.path.join(SRC, "wrap.c"), "-o", wrap_o])
+    win_o = os.path.join(bdir, "win.o")
+    run([cfg["cc"]] + flags + ["-D_WIN32", "-w", "-I" + SRC] + inc + ["-c", os.path.join(SRC, "win.c"), "-o", win_o])
+    run([cfg["cc"]] + cfg["ldflags"] + [win_o, wrap_o, lib, "-o", out + ".tmp", "-lpthread"])
+    os.replace(out + ".tmp", out)
+    open(stamp, "w").write(digest)
+    return out
+
+
+API_FUNCS = ["reproc_new", "reproc_start", "reproc_pid", "reproc_poll", "reproc_read", "reproc_write", "reproc_close",
+             "reproc_wait", "reproc_terminate", "reproc_kill", "reproc_stop", "reproc_destroy", "reproc_strerror"]
+
+
+def build_cxx(config="asan"):
+    """C19: reproc.cpp + headers from the tree against the fake C API in src/cxx.cpp; the real C
+    library is linked with its API functions renamed (its constants keep their names)."""
+    cfg = CONFIGS[config]
+    bdir = os.path.join(BUILD, config + "-cxx")
+    os.makedirs(bdir, exist_ok=True)
+    cpp = os.path.join(REPO, "reproc++/src/reproc.cpp")
+    hpp = sorted(glob.glob(os.path.join(REPO, "reproc++/include/reproc++/*.hpp")) +
+                 glob.glob(os.path.join(REPO, "reproc++/include/reproc++/detail/*.hpp")))
+    harness = [os.path.join(SRC, "cxx.cpp")]
+    flags = cfg["cflags"]
+    out = os.path.join(bdir, "cxx")
+    digest = _hash(lib_sources() + lib_headers() + hpp + [cpp] + harness, " ".join(flags))
+    stamp = out + ".stamp"
+    if os.path.exists(out) and _stamp_ok(stamp, digest):
+        return out
+    renames = ["-D%s=real_%s" % (f, f) for f in API_FUNCS]
+    objs = []
+    for s in lib_sources():
+        o = os.path.join(bdir, "c_" + os.path.basename(s)[:-2] + ".o")
+        run([cfg["cc"]] + flags + LIB_DEFS + LIB_INC + renames + ["-c", s, "-o", o])
+        objs.append(o)
+    inc = LIB_INC + ["-I" + os.path.join(REPO, "reproc++/include")]
+    o1 = os.path.join(bdir, "reproc_cpp.o")
+    run(["g++", "-std=c++11", "-w"] + flags + inc + ["-c", cpp, "-o", o1])
+    o2 = os.path.join(bdir, "cxx.o")
+    run(["g++", "-std=c++11"] + flags + inc + ["-c", harness[0], "-o", o2])
+    run(["g++"] + cfg["ldflags"] + [o2, o1] + objs + ["-o", out + ".tmp", "-lpthread"])
+    os.replace(out + ".tmp", out)
+    open(stamp, "w").write(digest)
+    return out
+
+
 def build_opts(config="asan"):
     return build_engine(config, "opts", ["opts.c"])
 
